@@ -4,6 +4,7 @@ pub mod corpus;
 pub mod derive;
 pub mod determinism;
 pub mod evalorder;
+pub mod discard;
 pub mod externs;
 pub mod fnvalues;
 pub mod generics;
@@ -55,6 +56,7 @@ pub fn all() -> Vec<Box<dyn Family>> {
         Box::new(closures::Closures),
         Box::new(fnvalues::FnValues),
         Box::new(externs::Externs),
+        Box::new(discard::Discard),
         Box::new(generics::Generics),
         Box::new(methods::Methods),
         Box::new(derive::Derive),
